@@ -29,7 +29,6 @@ DocsOver(strBodies, blockBodies, lineBodies) ==
 
 McDocs     == DocsOver(StrBodies(McAtoms, 3), BlockBodies(Classes, 3), LineBodies(Classes, 3))
 McDocsApos == DocsOver(StrBodies(McAtoms, 2), BlockBodies(Classes, 2), LineBodies(Classes, 2))
-McDocsBig  == DocsOver(StrBodies(McAtoms \cup {"O"}, 4), BlockBodies(Classes, 4), LineBodies(Classes, 4))
 McAnyRead  == 1..40
 
 DocsWellFormed == \A d \in Docs : WellFormed(d) /\ UnitOk(d)
